@@ -151,6 +151,17 @@ def rulesets(draw, max_pt=600, markov='maybe', prince=False, max_structs=4, norm
         vars_[nm] = draw(variable(nm, family))
         if nm[0] == 'A':
             vars_['C' + nm[1:]] = draw(variable('C' + nm[1:], family))
+    if len(vars_) >= 2 and draw(st.integers(0, 3)) == 0:
+        # equal ratios between neighbouring groups of two different variables (word list and mask list, digits and symbols):
+        # the two parents of a pre-terminal then tie exactly in exact arithmetic and almost in floats
+        a, b = draw(st.lists(st.sampled_from(sorted(vars_)), min_size=2, max_size=2, unique=True))
+        if a[0] == 'A' and draw(st.booleans()):
+            b = 'C' + a[1:]
+        src, dst = vars_[a], vars_[b]
+        for i in range(min(len(src), len(dst))):
+            dst[i][0] = src[i][0]
+        if len(dst) > len(src):
+            del dst[len(src):]
     ns = draw(st.integers(1, max_structs))
     structs = []
     for _ in range(ns):
@@ -203,7 +214,9 @@ def rulesets(draw, max_pt=600, markov='maybe', prince=False, max_structs=4, norm
             # construct (not filter): only levels that really contain 2..40 strings under the reference enumerator
             from . import omen_ref
             ref = omen_ref.from_model_dict(om)
-            good = [l for l in range(0, 9) if 2 <= omen_ref.count_level(ref, l) <= 40]
+            # levels 10..13 bring in initial n-grams and lengths whose own level is the maximum (10)
+            good = [l for l in range(0, 14) if 2 <= omen_ref.count_level(ref, l) <= 40 and
+                    (l < 9 or omen_ref.search_space(ref, l, cap=20000) <= 20000)]
             if not good:
                 om = {'ngram': 2, 'alphabet': ['a', 'b'], 'ip': [[0, 'a'], [1, 'b']], 'ep': [[0, 'a'], [1, 'b']],
                       'cp': [[0, 'aa'], [1, 'ab'], [0, 'ba'], [1, 'bb']], 'ln': [10, 0, 1] + [10] * 18}
